@@ -123,6 +123,26 @@ if concatenated:
 return fluxes"""
 _CONSUMERS = _PRODUCERS.replace("if v > 0]", "if v < 0]").replace("*= stoichs[k]", "*= -stoichs[k]")
 
+# the repaired bodies (fixes/C10-prodcons-per-segment.diff): fact PKRows
+_PRODUCERS_ROWS = "return self._get_fluxes_by_sign(variable, sign=1, scaled=scaled, normalise=normalise, concatenated=concatenated)"
+_CONSUMERS_ROWS = "return self._get_fluxes_by_sign(variable, sign=-1, scaled=scaled, normalise=normalise, concatenated=concatenated)"
+_BY_SIGN = """factors: dict[str, float | Derived] = {name: rxn.stoichiometry[variable] for name, rxn in self.model.get_raw_reactions(as_copy=False).items() if variable in rxn.stoichiometry}
+for surrogate in self.model.get_raw_surrogates(as_copy=False).values():
+    for name, stoichiometry in surrogate.stoichiometries.items():
+        if variable in stoichiometry:
+            factors[name] = stoichiometry[variable]
+if len(factors) == 0:
+    raise KeyError(variable)
+coefficients = [pd.DataFrame([[sign * (f.fn(*(row[i] for i in f.args)) if isinstance(f, Derived) else f) for f in factors.values()] for row in (values.to_dict() | {'time': time} for time, values in args.iterrows())], index=args.index, columns=list(factors), dtype=float) for args in self._compute_args()]
+names = [k for k in factors if any(((c[k] > 0).any() for c in coefficients))]
+fluxes: list[pd.DataFrame] = [flux.loc[:, names].where(coef.loc[:, names] > 0) for flux, coef in zip(self.get_fluxes(normalise=normalise, concatenated=False), coefficients, strict=True)]
+if scaled:
+    fluxes = [flux * coef.loc[:, names] for flux, coef in zip(fluxes, coefficients, strict=True)]
+self.model.update_parameters(self.raw_parameters[-1])
+if concatenated:
+    return pd.concat(fluxes, axis=0)
+return fluxes"""
+
 _SELECT = """names = self.model.get_arg_names(include_time=False, include_variables=include_variables, include_parameters=include_parameters, include_derived_parameters=include_derived_parameters, include_derived_variables=include_derived_variables, include_reactions=include_reactions, include_surrogate_variables=include_surrogate_variables, include_surrogate_fluxes=include_surrogate_fluxes, include_readouts=include_readouts)
 return [i.loc[:, names] for i in dependent]"""
 _ADJUST = """if normalise is not None:
@@ -150,6 +170,8 @@ _MODEL = {
     "_get_args_time_course": "if (cache := self._cache) is None:\n    cache = self._create_cache()\nargs_by_time = {}\nfor time, values in variables.iterrows():\n    args = self._get_args(variables=values.to_dict(), time=cast(float, time), cache=cache)\n    if include_readouts:\n        for name, ro in self._readouts.items():\n            ro.calculate_inpl(name, args)\n    args_by_time[time] = args\nreturn args_by_time",
     "_get_right_hand_side": "dxdt = pd.Series(np.zeros(len(var_names), dtype=float), index=var_names)\nfor k, stoc in cache.stoich_by_cpds.items():\n    for flux, n in stoc.items():\n        dxdt[k] += n * args[flux]\nfor k, sd in cache.dyn_stoich_by_cpds.items():\n    for flux, dv in sd.items():\n        n = dv.fn(*(args[i] for i in dv.args))\n        dxdt[k] += n * args[flux]\nreturn dxdt",
     "get_right_hand_side_time_course": "if (cache := self._cache) is None:\n    cache = self._create_cache()\nvar_names = self.get_variable_names()\nrhs_by_time = {}\nfor time, variables in args.iterrows():\n    rhs_by_time[time] = self._get_right_hand_side(args=variables.to_dict() | {'time': time}, var_names=var_names, cache=cache)\nreturn pd.DataFrame(rhs_by_time).T",
+    "get_raw_reactions": "if as_copy:\n    return copy.deepcopy(self._reactions)\nreturn self._reactions",
+    "get_raw_surrogates": "if as_copy:\n    return copy.deepcopy(self._surrogates)\nreturn self._surrogates",
     "get_stoichiometries_of_variable": "if (cache := self._cache) is None:\n    cache = self._create_cache()\nargs = self.get_args(variables=variables, time=time)\nstoich = copy.deepcopy(cache.stoich_by_cpds[variable])\nfor rxn, derived in cache.dyn_stoich_by_cpds.get(variable, {}).items():\n    stoich[rxn] = float(derived.fn(*(args[i] for i in derived.args)))\nreturn stoich",
 }
 
@@ -167,7 +189,7 @@ def _same(a: str, b: str) -> bool:
 def extract_facts() -> dict[str, str]:
     facts = {
         "norm_rows": "NRUnknown", "fill_guard": "false", "fill_reapply": "false", "rhs_reapply": "false",
-        "prod_shape": "false", "select_adjust_shape": "false", "views_shape": "false", "model_shape": "false",
+        "prod": "PKUnknown", "select_adjust_shape": "false", "views_shape": "false", "model_shape": "false",
     }
     try:
         sim = ast.parse((common.REPO / "src/mxlpy/simulation.py").read_text())
@@ -200,7 +222,18 @@ def extract_facts() -> dict[str, str]:
                 facts["rhs_recognised"] = "true"
     facts.setdefault("rhs_recognised", "false")
     gp, gc = _find(cls.body, "get_producers"), _find(cls.body, "get_consumers")
-    facts["prod_shape"] = cbool(gp is not None and gc is not None and _same(_body_src(gp), _PRODUCERS) and _same(_body_src(gc), _CONSUMERS))
+    if gp is not None and gc is not None:
+        if _same(_body_src(gp), _PRODUCERS) and _same(_body_src(gc), _CONSUMERS):
+            facts["prod"] = "PKFirst"
+        else:
+            bs = _find(cls.body, "_get_fluxes_by_sign")
+            derived_imported = any(
+                isinstance(n, ast.ImportFrom) and n.module == "mxlpy.types" and any(a.name == "Derived" and a.asname is None for a in n.names)
+                for n in sim.body
+            )
+            if (bs is not None and derived_imported and _same(_body_src(gp), _PRODUCERS_ROWS) and _same(_body_src(gc), _CONSUMERS_ROWS)
+                    and _same(_body_src(bs), _BY_SIGN) and not bs.decorator_list and not gp.decorator_list and not gc.decorator_list):
+                facts["prod"] = "PKRows"
     sd, ad = _find(cls.body, "_select_data"), _find(cls.body, "_adjust_data")
     head_ok = nf is not None and _body_src(nf).startswith(ast.unparse(ast.parse(_NORM_HEAD)))
     facts["select_adjust_shape"] = cbool(
@@ -239,10 +272,10 @@ def gen() -> dict[str, str]:
     f = extract_facts()
     text = (
         "(* REGENERATED from src/mxlpy/simulation.py and src/mxlpy/model.py by harness/c10.py; do not edit.\n"
-        "   An unrecognised shape yields NRUnknown / false, which breaks C10_facts_pinned. *)\n"
+        "   An unrecognised shape yields NRUnknown / PKUnknown / false, which breaks C10_facts_pinned. *)\n"
         "From SimRes Require Import ResModel.\n"
         f"Definition gen_res_facts : res_facts := mkResFacts {f['norm_rows']} {f['fill_guard']} {f['fill_reapply']} "
-        f"{f['rhs_reapply']} {f['prod_shape']} {f['select_adjust_shape']} {f['views_shape']} {f['model_shape']}.\n"
+        f"{f['rhs_reapply']} {f['prod']} {f['select_adjust_shape']} {f['views_shape']} {f['model_shape']}.\n"
     )
     common.write_if_changed(common.area_dir(AREA) / "GenResFacts.v", text)
     return f
@@ -491,6 +524,27 @@ def _canon_frame(df) -> dict:
     }
 
 
+def _canon_mframe(df) -> dict:
+    """a frame that may carry NaN cells (producers / consumers): NaN -> None"""
+    import math
+
+    return {
+        "idx": [common.to_fraction(t) for t in df.index.tolist()],
+        "cols": [str(c) for c in df.columns.tolist()],
+        "rows": [[None if (isinstance(x, float) and math.isnan(x)) else common.to_fraction(x) for x in row] for row in df.to_numpy().tolist()],
+    }
+
+
+def _canon_masked(x) -> Any:
+    import pandas as pd
+
+    if isinstance(x, pd.DataFrame):
+        return ["mframe", _canon_mframe(x)]
+    if isinstance(x, list):
+        return ["mframes", [_canon_mframe(f) for f in x]]
+    return ["other", repr(type(x))]
+
+
 def _canon(x) -> Any:
     import pandas as pd
 
@@ -526,7 +580,7 @@ def run_op_impl(m, res, op) -> Any:
             return _canon(res.get_right_hand_side(normalise=_norm_arg(op[1]), concatenated=op[2]))
         if k in ("prod", "cons"):
             fn = res.get_producers if k == "prod" else res.get_consumers
-            return _canon(fn(op[1], scaled=op[2], normalise=_norm_arg(op[3]), concatenated=op[4]))
+            return _canon_masked(fn(op[1], scaled=op[2], normalise=_norm_arg(op[3]), concatenated=op[4]))
         if k == "y0":
             return _canon(res.get_new_y0())
         if k == "upd":
@@ -826,8 +880,34 @@ def _cframe(f, ids) -> str:
     )
 
 
+PROD_KIND = "PKFirst"  # set by check(): the regenerated fact decides which constructor the model answers with
+
+
+def _cmframe(f, ids) -> str:
+    cell = lambda x: "None" if x is None else f"(Some {_cq(x)})"  # noqa: E731
+    return (
+        f"(mkFrame {clist(cz(common.exact_int(t)) for t in f['idx'])} {clist(cn(ids[c]) for c in f['cols'])} "
+        f"{clist(clist(cell(x) for x in row) for row in f['rows'])})"
+    )
+
+
+def _unmask(f):
+    """a masked frame without NaN as a plain frame (the snapshot's bodies never mask); None if it has NaN"""
+    if any(x is None for row in f["rows"] for x in row):
+        return None
+    return f
+
+
 def _cout(o, ids) -> str:
     k = o[0]
+    if k in ("mframe", "mframes"):
+        fs = [o[1]] if k == "mframe" else o[1]
+        if PROD_KIND == "PKFirst":
+            plain = [_unmask(f) for f in fs]
+            if any(f is None for f in plain):
+                return "VOther"
+            return f"VFrame {_cframe(plain[0], ids)}" if k == "mframe" else f"VFrames {clist(_cframe(f, ids) for f in plain)}"
+        return f"VMFrame {_cmframe(fs[0], ids)}" if k == "mframe" else f"VMFrames {clist(_cmframe(f, ids) for f in fs)}"
     if k == "frame":
         return f"VFrame {_cframe(o[1], ids)}"
     if k == "frames":
@@ -885,7 +965,7 @@ def coq_case(case, obs) -> str:
 def corr_file(cases: list[str]) -> str:
     defs = "\n".join(f"Definition case_{i} : case := {c}." for i, c in enumerate(cases))
     return (
-        "From Coq Require Import QArith.\nFrom MxlBase Require Import ListX.\nFrom SimRes Require Import ResModel ResFn GenResFacts.\n"
+        "From Coq Require Import QArith.\nFrom MxlBase Require Import ListX.\nFrom SimRes Require Import ResModel ResFn GenResFacts ResNv.\n"
         "Local Open Scope Z_scope.\n"
         "Definition case := (model * simres * env * list op * list out)%type.\n"
         + defs
@@ -893,7 +973,8 @@ def corr_file(cases: list[str]) -> str:
         + clist(f"case_{i}" for i in range(len(cases)))
         + ".\n"
         "Definition agree (c : case) : bool := match c with (m, r, cur, ops, outs) =>\n"
-        "  list_eqb out_eqb (run_ops fsemZ gen_res_facts m r ops (mkSt cur [])) outs end.\n"
+        "  (* wf_namesb: the name hypothesis of the N*v theorems holds for this model (C10_wf_names_checked) *)\n"
+        "  wf_namesb m (List.map fst cur) && list_eqb out_eqb (run_ops fsemZ gen_res_facts m r ops (mkSt cur [])) outs end.\n"
         "Definition mismatches := filter_idx (fun c => negb (agree c)) cases.\n"
         "Eval vm_compute in mismatches.\n"
     )
